@@ -10,6 +10,7 @@ Inductive oobs :=
 
 Inductive case :=
 | CMerge (cs : crits) (pre : list (list minput)) (fs : list minput) (a0 : counters) (first second : result (list oobs))
+         (alone_ok : bool)    (* every object yielded by the second call, merged again ALONE, comes back as itself without children *)
 | CBp (cs : crits) (kids : list minput) (plain merged : result Z)
 | CMergeAll (exclude : bool) (before : tables) (mem : counters) (after : result tables).
 
@@ -85,13 +86,13 @@ Definition is_default (cs : crits) : bool := match cs with [CSeqid; COvEnd; CStr
 
 Definition verdict (c : case) : Z :=
   match c with
-  | CMerge cs pre fs a0 first second =>
+  | CMerge cs pre fs a0 first second alone_ok =>
       if forallb input_ok fs && nodup_strs (map mi_id fs) && start_sorted fs && forallb start_sorted pre then
         (* earlier merge() calls over some of the same objects only advance the id counters *)
         let a0 := fold_left (fun a l => snd (merge cs l a)) pre a0 in
         let '(m1, a1) := merge cs fs a0 in
         let '(m2, _) := merge cs fs a1 in
-        if outs_eqb m1 first && outs_eqb m2 second
+        if outs_eqb m1 first && outs_eqb m2 second && alone_ok
            && match first with
               | Ok l => partition_ok fs l && (if is_default cs && one_class fs then obs_separated fs l else true)
               | _ => false
